@@ -40,7 +40,12 @@ type Solver struct {
 	timeout int
 	Log     io.Writer
 	dead    bool
-	Macro   bool // emit define-fun instead of declare-const + equation (used for stand-alone scripts)
+	forkCPU time.Duration // CPU time of accounted forks
+	lastCPU time.Duration // last reading of the process CPU time
+	// Stretched counts the queries asked again with a longer timeout because the solver had been given less
+	// CPU time than its budget (a loaded machine)
+	Stretched int
+	Macro     bool // emit define-fun instead of declare-const + equation (used for stand-alone scripts)
 }
 
 // NewSolver starts a solver for the given store. timeoutMs is the per-query soft timeout.
@@ -85,6 +90,8 @@ func (s *Solver) Fork() (*Solver, error) { return NewSolver(s.Kind, s.st, s.time
 
 // Account adds the statistics of a forked solver to this one.
 func (s *Solver) Account(f *Solver) {
+	s.forkCPU += f.CPU()
+	s.Stretched += f.Stretched
 	s.Queries += f.Queries
 	s.Seconds += f.Seconds
 	s.Errors = append(s.Errors, f.Errors...)
@@ -101,6 +108,7 @@ func (s *Solver) Close() {
 	if s == nil || s.cmd == nil {
 		return
 	}
+	s.CPU() // keep the last reading
 	s.in.Close()
 	done := make(chan struct{})
 	go func() { s.cmd.Wait(); close(done) }()
@@ -284,8 +292,112 @@ func (s *Solver) Assert(t *Term) {
 	s.buf.WriteString("(assert " + ref(t) + ")\n")
 }
 
+// procCPU returns the CPU time (user+system) a process has used so far, from /proc/<pid>/stat;
+// ok is false where that file cannot be read.
+func procCPU(pid int) (time.Duration, bool) {
+	b, err := os.ReadFile(fmt.Sprintf("/proc/%d/stat", pid))
+	if err != nil {
+		return 0, false
+	}
+	txt := string(b)
+	i := strings.LastIndexByte(txt, ')') // the command name may contain blanks
+	if i < 0 {
+		return 0, false
+	}
+	f := strings.Fields(txt[i+1:])
+	if len(f) < 13 {
+		return 0, false
+	}
+	ut, e1 := strconv.ParseInt(f[11], 10, 64)
+	stt, e2 := strconv.ParseInt(f[12], 10, 64)
+	if e1 != nil || e2 != nil {
+		return 0, false
+	}
+	return time.Duration(ut+stt) * (time.Second / 100), true // USER_HZ is 100 on Linux
+}
+
+// ProcCPU is procCPU for the drivers that run one-shot solver processes themselves.
+func ProcCPU(pid int) (time.Duration, bool) { return procCPU(pid) }
+
+// RunWithCPULimit runs a one-shot process to its end or until it has used the given CPU time (or, where CPU
+// time cannot be read, that much wall-clock time; in any case 40 times as much wall-clock time), and
+// returns its combined output. The limit is CPU time so that a shared machine does not change the verdict.
+func RunWithCPULimit(cmd *exec.Cmd, limit time.Duration) []byte {
+	var out strings.Builder
+	var mu sync.Mutex
+	w := lockedWriter{&out, &mu}
+	cmd.Stdout, cmd.Stderr = w, w
+	if err := cmd.Start(); err != nil {
+		return []byte("(error \"cannot start: " + err.Error() + "\")")
+	}
+	t0 := time.Now()
+	pid := cmd.Process.Pid
+	stop := make(chan struct{})
+	go func() {
+		tk := time.NewTicker(200 * time.Millisecond)
+		defer tk.Stop()
+		for {
+			select {
+			case <-stop:
+				return
+			case <-tk.C:
+			}
+			el := time.Since(t0)
+			over := el > 40*limit
+			if !over {
+				if c, ok := procCPU(pid); ok {
+					over = c > limit
+				} else {
+					over = el > limit
+				}
+			}
+			if over {
+				cmd.Process.Kill()
+				return
+			}
+		}
+	}()
+	cmd.Wait()
+	close(stop)
+	mu.Lock()
+	defer mu.Unlock()
+	return []byte(out.String())
+}
+
+type lockedWriter struct {
+	b  *strings.Builder
+	mu *sync.Mutex
+}
+
+func (l lockedWriter) Write(p []byte) (int, error) {
+	l.mu.Lock()
+	defer l.mu.Unlock()
+	return l.b.Write(p)
+}
+
+// CPU returns the CPU time the solver process has used since it was started (plus that of accounted forks).
+func (s *Solver) CPU() time.Duration {
+	d := s.forkCPU
+	if s.cmd != nil && s.cmd.Process != nil {
+		if c, ok := procCPU(s.cmd.Process.Pid); ok {
+			d += c
+			s.lastCPU = c
+		} else {
+			d += s.lastCPU
+		}
+	} else {
+		d += s.lastCPU
+	}
+	return d
+}
+
 // Check decides satisfiability of the conjunction of the given Bool terms.
 // Unknown covers timeouts, errors and a dead solver.
+//
+// The per-query timeout is a budget of solver CPU time, not of wall-clock time: when the solver answers
+// unknown at its (wall-clock) timeout having been given less CPU than the budget - the machine is shared
+// with other work - the same query is asked again with the timeout stretched by the observed starvation
+// (at most three times, at most 40x). On an idle machine nothing changes.
 func (s *Solver) Check(assumptions ...*Term) Result {
 	if s.dead {
 		return Unknown
@@ -307,27 +419,88 @@ func (s *Solver) Check(assumptions ...*Term) Result {
 			lits = append(lits, ref(a))
 		}
 	}
-	if len(lits) == 0 {
-		s.buf.WriteString("(check-sat)\n")
-	} else {
-		s.buf.WriteString("(check-sat-assuming (" + strings.Join(lits, " ") + "))\n")
+	cmdline := "(check-sat)\n"
+	if len(lits) > 0 {
+		cmdline = "(check-sat-assuming (" + strings.Join(lits, " ") + "))\n"
 	}
-	t0 := time.Now()
+	s.buf.WriteString(cmdline)
 	query := s.buf.String()
-	s.send(query)
 	s.buf.Reset()
 	s.Queries++
+	nominal := s.timeout
+	res, cpu, wall := s.checkOnce(query, nominal)
+	for try := 0; try < 3 && res == Unknown && !s.dead && nominal > 0 && s.Kind != "cvc5"; try++ {
+		budget := time.Duration(nominal) * time.Millisecond
+		if wall < budget*9/10 || cpu >= budget*85/100 {
+			break // not a timeout, or a timeout after the full CPU budget
+		}
+		scale := 40.0
+		if cpu > 0 {
+			scale = 1.5 * float64(wall) / float64(cpu)
+		}
+		if scale > 40 {
+			scale = 40
+		}
+		if scale < 2 {
+			scale = 2
+		}
+		s.Stretched++
+		s.SetTimeout(int(float64(nominal) * scale))
+		res, cpu, wall = s.checkOnce(cmdline, nominal)
+		s.SetTimeout(nominal)
+	}
+	return res
+}
+
+// checkOnce sends the text, reads the answer and returns it with the CPU and wall-clock time the solver took.
+// cpuBudgetMs is the nominal per-query budget the watchdog is derived from.
+func (s *Solver) checkOnce(query string, cpuBudgetMs int) (Result, time.Duration, time.Duration) {
+	t0 := time.Now()
+	var c0 time.Duration
+	haveCPU := false
+	pid := 0
+	if s.cmd != nil && s.cmd.Process != nil {
+		pid = s.cmd.Process.Pid
+		c0, haveCPU = procCPU(pid)
+	}
+	s.send(query)
 	// z3's soft timeout is not honoured inside every tactic (nonlinear arithmetic): a watchdog kills the
-	// process after twice the timeout plus a grace period; the query and all later ones are then Unknown
-	if s.timeout > 0 && s.cmd != nil {
+	// process once it has used twice the budget plus a grace period of CPU time (or, where CPU time cannot
+	// be read, of wall-clock time; in any case after 45 times the budget of wall-clock time); the query and
+	// all later ones are then Unknown
+	if cpuBudgetMs > 0 && s.cmd != nil {
 		proc := s.cmd.Process
-		wd := time.AfterFunc(time.Duration(2*s.timeout)*time.Millisecond+5*time.Second, func() {
-			if f := os.Getenv("BMV_DUMPQ"); f != "" {
-				os.WriteFile(f, []byte(query), 0o644)
+		limit := time.Duration(2*cpuBudgetMs)*time.Millisecond + 5*time.Second
+		hard := time.Duration(45*cpuBudgetMs)*time.Millisecond + 5*time.Second
+		stop := make(chan struct{})
+		defer close(stop)
+		go func() {
+			tk := time.NewTicker(500 * time.Millisecond)
+			defer tk.Stop()
+			for {
+				select {
+				case <-stop:
+					return
+				case <-tk.C:
+				}
+				el := time.Since(t0)
+				over := el > hard
+				if !over {
+					if c, ok := procCPU(pid); ok && haveCPU {
+						over = c-c0 > limit
+					} else {
+						over = el > limit
+					}
+				}
+				if over {
+					if f := os.Getenv("BMV_DUMPQ"); f != "" {
+						os.WriteFile(f, []byte(query), 0o644)
+					}
+					proc.Kill()
+					return
+				}
 			}
-			proc.Kill()
-		})
-		defer wd.Stop()
+		}()
 	}
 	var res Result = Unknown
 	for {
@@ -346,7 +519,7 @@ func (s *Solver) Check(assumptions ...*Term) Result {
 			s.Errors = append(s.Errors, line)
 			if s.dead {
 				s.Seconds += time.Since(t0).Seconds()
-				return Unknown
+				return Unknown, 0, time.Since(t0)
 			}
 			continue
 		default:
@@ -355,8 +528,15 @@ func (s *Solver) Check(assumptions ...*Term) Result {
 		}
 		break
 	}
-	s.Seconds += time.Since(t0).Seconds()
-	return res
+	wall := time.Since(t0)
+	s.Seconds += wall.Seconds()
+	cpu := wall
+	if haveCPU {
+		if c1, ok := procCPU(pid); ok {
+			cpu = c1 - c0
+		}
+	}
+	return res, cpu, wall
 }
 
 // Model returns the values of the given variables after a Sat answer.
@@ -573,13 +753,13 @@ func RunScript(kind, script string, timeoutMs int) (Result, string) {
 	var cmd *exec.Cmd
 	switch kind {
 	case "z3", "z3-new":
-		cmd = exec.Command(kind, "-in", fmt.Sprintf("-t:%d", timeoutMs))
+		cmd = exec.Command(kind, "-in")
 	case "cvc5":
-		cmd = exec.Command("cvc5", "--lang=smt2", fmt.Sprintf("--tlimit=%d", timeoutMs))
+		cmd = exec.Command("cvc5", "--lang=smt2")
 		script = "(set-logic ALL)\n" + script
 	}
 	cmd.Stdin = strings.NewReader(script)
-	out, _ := cmd.CombinedOutput()
+	out := RunWithCPULimit(cmd, time.Duration(timeoutMs)*time.Millisecond)
 	txt := strings.TrimSpace(string(out))
 	if strings.Contains(txt, "(error") {
 		return Unknown, txt
